@@ -33,7 +33,9 @@ pub const HORIZON_S: u64 = 300;
 
 /// Searches that store 10^5..10^6 table entries (position, depth in the quick tier; thorough = +1).
 pub const DEEP: &[(&str, u8)] = &[
-    ("position startpos", 7),
+    // several seconds per search, more than a second between two of its info lines: output that
+    // follows the wall clock (a progress line every second) shows only in a search that long
+    ("position startpos", 8),
     ("position fen r1bq1rk1/ppp2ppp/2np1n2/2b1p3/2B1P3/2PP1N2/PP3PPP/RNBQ1RK1 w - - 0 7", 5),
     ("position fen 8/5pk1/6p1/R7/5P2/6P1/r4K2/8 w - - 0 40", 9),
     ("position fen r3k2r/p1ppqpb1/bn2pnp1/3PN3/1p2P3/2N2Q1p/PPPBBPPP/R3K2R w KQkq - 0 1", 4),
